@@ -179,6 +179,12 @@ def et_fault_configs(M, tier):
     return cfgs
 
 
+def dt_fault_configs(M, tier):
+    """DT configurations with one lost request at every position of the first poll."""
+    return [{"family": "DT", "serial": s, "refuse": list(r), "fail_at": k} for s in dt_serials(M, tier == "thorough")
+            for r in ((), ("dt_meter",)) for k in range(0, 4)]
+
+
 def dt_configs(M, tier):
     return [{"family": "DT", "serial": s, "refuse": list(r)} for s in dt_serials(M, tier == "thorough")
             for r in ((), ("dt_meter",))]
